@@ -568,7 +568,7 @@ def execute_generic(desc, ctx, mode: str) -> None:
                     ctx.label('route:with_backslash')
             ctx.label('sep:' + ('none' if '/' not in q and '\\' not in q else
                                 'mixed' if '/' in q and '\\' in q else 'back' if '\\' in q else 'fwd'))
-            classify_unify(ctx, tree, q, readings)
+            classify_unify(ctx, tree, q, readings_direct(tree, q))
             if mode == 'lookup':
                 run_ops(ctx, tree, fs, q, readings, 'raw', ('in', 'getitem', 'open_bin', 'open_str'))
             elif mode == 'walk':
@@ -599,12 +599,12 @@ _ROUTES = ('route:dotdot:sibling_ext', 'route:abs:sibling_ext', 'route:dotdot:an
            'route:dotdot:sibling_other', 'route:with_backslash', 'target:inside', 'target:outside')
 
 SUBCHECKS = [
-    Sub('lookup', execute_lookup, strategy=case_strategy(False), quick=1200, thorough=60000, floor=100,
+    Sub('lookup', execute_lookup, strategy=case_strategy(False), quick=1200, thorough=100000, floor=100,
         must_hit=_ROUTES + ('inside_hit:in', 'inside_hit:getitem', 'inside_hit:open_bin', 'inside_hit:open_str',
                             'target:readings_differ', 'root_form:rel_slash', 'root_form:abs_slash')),
-    Sub('walk', execute_walk, strategy=case_strategy(False), quick=1200, thorough=60000, floor=100,
+    Sub('walk', execute_walk, strategy=case_strategy(False), quick=1200, thorough=100000, floor=100,
         must_hit=_ROUTES + ('inside_hit:walk_folder',)),
-    Sub('chain', execute_chain, strategy=case_strategy(True), quick=1000, thorough=50000, floor=100,
+    Sub('chain', execute_chain, strategy=case_strategy(True), quick=1000, thorough=80000, floor=100,
         must_hit=_ROUTES + ('inside_hit:walk_folder', 'inside_hit:walk_folder_repeat', 'inside_hit:open_bin',
                             'prefix:sub', 'prefix:../@r2')),
 ]
